@@ -134,14 +134,18 @@ def jwe_encrypt(form, protected, plaintext, jkey, algorithms, unprotected=None, 
             return jwe.encrypt_compact(protected, plaintext, jkey, sender_key=sender_key, **kw)
         cls = jwe.FlattenedJSONEncryption if form == "flattened" else jwe.GeneralJSONEncryption
         obj = cls(protected, plaintext, unprotected, aad)
-        if recipients is None:
+        from joserfc.jwk import KeySet
+        via_param = recipients is None and (isinstance(jkey, KeySet) or callable(jkey))
+        if via_param:
+            obj.add_recipient(header)
+        elif recipients is None:
             obj.add_recipient(header, jkey)
         else:
             for r in recipients:
                 obj.add_recipient(r[0], r[1])
                 if len(r) > 2 and r[2] is not None:
                     obj.recipients[-1].sender_key = r[2]
-        return jwe.encrypt_json(obj, None if recipients is not None else jkey, sender_key=sender_key, **kw)
+        return jwe.encrypt_json(obj, jkey if via_param else None, sender_key=sender_key, **kw)
     return call(run)
 
 
